@@ -150,8 +150,14 @@ def run(tier):
             case = {'index': i, 'spec': filegen.describe(spec), 'after_first_write': muts}
             chk.case('mutate-then-rewrite', nontrivial_key=('c', i), sample={'index': i, 'mutations': muts[:3]})
             if s2 == 'ok' and stf == 'ok' and open(p, 'rb').read() != fresh:
-                chk.fail('rewrite:stale-object-name', case, 'after changing origin references / names the rewritten file differs '
-                                                            'from a fresh build of the changed specification')
+                # narrow identification of a known residue: a renamed object that had same-named siblings in its set
+                # keeps the copy number computed at creation, a fresh build numbers the names anew
+                renamed = [int(m.split('#')[1].split('.')[0]) for m in muts if '.name = ' in m]
+                sibling = any(sum(1 for o2 in objs if (o2['kind'], o2.get('set_name'), o2['name']) ==
+                                  (objs[oi]['kind'], objs[oi].get('set_name'), objs[oi]['name'])) > 1 for oi in renamed)
+                key = 'rewrite:copy-number-not-recomputed-after-rename' if sibling else 'rewrite:stale-object-name'
+                chk.fail(key, case, 'after changing origin references / names the rewritten file differs '
+                                    'from a fresh build of the changed specification')
             elif (s2 == 'ok') != (stf == 'ok'):
                 chk.fail('rewrite:writability-differs-after-mutation', case, f'rewrite {s2} {e2}, fresh build {stf}')
     finally:
